@@ -98,7 +98,7 @@ pub fn run_script(sc: &Script, focus: &Focus) -> (Vec<Finding>, Vec<String>) {
 
 pub fn script_json(sc: &Script) -> Value {
     json!({
-        "cfg": {"max_joins": sc.cfg.max_joins},
+        "cfg": {"max_joins": sc.cfg.max_joins, "label": sc.cfg.label},
         "users": sc.users.iter().map(|(s,n,u)| json!([s,n,u])).collect::<Vec<_>>(),
         "prelude": sc.prelude.iter().map(|(s,l)| json!([s,l])).collect::<Vec<_>>(),
         "slot": sc.slot,
@@ -261,7 +261,9 @@ pub fn c10_scn(name: &str, full: bool) -> ChatScn {
     s.focus = Focus::state_only(&[Cat::Membership, Cat::Ranks, Cat::ChanFlags, Cat::ChanLists, Cat::Away, Cat::UserIdentity]);
     // who "has voice or a higher rank" is kept in two places by the server; they agree
     s.invariants = vec!["rank-set", "membership-symmetry"];
-    for t in ["PRIVMSG #c :x y", "NOTICE #c :x y", "PRIVMSG carol :x", "NOTICE carol :x", "PRIVMSG nosuch :x", "NOTICE nosuch :x", "PRIVMSG #nochan :x", "NOTICE #nochan :x", "PRIVMSG #c,carol,nosuch :x", "NOTICE #c,carol,nosuch,#nochan :x", "PRIVMSG @#c :x", "NOTICE @#c :x"] {
+    for t in ["PRIVMSG #c :x y", "NOTICE #c :x y", "PRIVMSG carol :x", "NOTICE carol :x", "PRIVMSG nosuch :x", "NOTICE nosuch :x", "PRIVMSG #nochan :x", "NOTICE #nochan :x", "PRIVMSG #c,carol,nosuch :x", "NOTICE #c,carol,nosuch,#nochan :x", "PRIVMSG @#c :x", "NOTICE @#c :x",
+        // a channel name may contain a dot, also behind a status prefix
+        "NOTICE @#no.chan :x", "PRIVMSG @#no.chan :x", "NOTICE +#no.chan,nosuch :x"] {
         s.probes_for.push((1, t));
     }
     s.probe_focus = Some(Focus {
@@ -336,7 +338,9 @@ pub fn c07_scn(name: &str, full: bool) -> ChatScn {
     // carol is a second member from the start: a limit can be set below the occupancy
     let mut s = ChatScn::new(name, cfg, vec![part(0, "alice", "alicia", "au"), part(1, "bob", "bobby", "bu"), part(2, "carol", "caro", "cu")], 0);
     s.prelude = vec![(0, "JOIN #c".into()), (2, "JOIN #c".into())];
-    let mut a: Vec<&'static str> = vec!["MODE #c +i", "MODE #c -i", "MODE #c +k k", "MODE #c +k j", "MODE #c -k", "MODE #c +b bob!*@*", "MODE #c -b bob!*@*", "MODE #c +e bob!*@*", "MODE #c -e bob!*@*", "MODE #c +e zed!*@*", "MODE #c +I bob!*@*", "MODE #c -I bob", "MODE #c +l 1", "MODE #c +l 2", "MODE #c +l 3", "MODE #c -l", "INVITE bob #c", "INVITE bobby #c", "KICK #c bob"];
+    let mut a: Vec<&'static str> = vec!["MODE #c +i", "MODE #c -i", "MODE #c +k k", "MODE #c +k j", "MODE #c -k", "MODE #c +b bob!*@*", "MODE #c -b bob!*@*", "MODE #c +e bob!*@*", "MODE #c -e bob!*@*", "MODE #c +e zed!*@*", "MODE #c +I bob!*@*", "MODE #c -I bob", "MODE #c +l 1", "MODE #c +l 2", "MODE #c +l 3", "MODE #c -l", "INVITE bob #c", "INVITE bobby #c", "KICK #c bob",
+        // a second invite-only channel: invitations are held per channel
+        "JOIN #d", "MODE #d +i", "INVITE bob #d"];
     if full {
         a.extend(["MODE #c +b *!*@127.0.0.1", "MODE #c -I bob!*@*", "MODE #c +I zed", "MODE #c +b bobby"]);
     }
@@ -837,6 +841,7 @@ pub fn c09_scn(name: &str, full: bool) -> ChatScn {
     for slot in 0..4 {
         s.probes_for.push((slot, "TOPIC #c"));
         s.probes_for.push((slot, "LIST #c"));
+        s.probes_for.push((slot, "LIST #nochan,#c"));
         s.probes_for.push((slot, "LIST"));
     }
     s.probe_focus = Some(Focus { cats: vec![], relays: false, relay_verbs: None, actor: true, actor_codes: Some(vec!["331", "332", "322", "403"]), closes: false });
@@ -987,7 +992,7 @@ fn c15_probes(_scn: &ChatScn, w: &mut World, v: &View, goals: &mut BTreeSet<Stri
 pub fn c16_scn(name: &str, full: bool) -> ChatScn {
     let mut s = ChatScn::new(name, oper_cfg(), vec![part(0, "alice", "alicia", "au"), part(1, "bob", "bobby", "bu"), part(2, "carol", "caro", "cu")], 0);
     s.prelude = vec![(0, "OPER op oppw".into())];
-    let mut a: Vec<&'static str> = vec!["JOIN #x", "JOIN #y", "PART #x", "PART #nochan,#x", "KICK #x {peer}", "KICK #x {me}", "KICK #x {peer},{me}", "MODE #x +o {peer}", "QUIT", "TOPIC #x :t", "TOPIC #y :u", "MODE #x +i", "MODE #x +k k", "MODE #x +b m"];
+    let mut a: Vec<&'static str> = vec!["JOIN #x", "JOIN #y", "CAP END", "PART #x", "PART #nochan,#x", "KICK #x {peer}", "KICK #x {me}", "KICK #x {peer},{me}", "MODE #x +o {peer}", "QUIT", "TOPIC #x :t", "TOPIC #y :u", "MODE #x +i", "MODE #x +k k", "MODE #x +b m"];
     if full {
         a.extend(["JOIN #x k", "MODE #x +l 1", "JOIN #x,#y", "PART #y"]);
     }
